@@ -1067,15 +1067,97 @@ static void case_color(uint64_t idx, vf_rng *r)
 	vf_sample("mpt_color_parse(\"%s\") -> %d", txt, ret);
 }
 
+/* ----------------------------------------------- two-coordinate properties */
+/*
+ * graph pos / position ([0,1] per coordinate), graph scale ([0,FLT_MAX]), text
+ * pos ([0,1]): the ranges are the ones written in the setters.  Each
+ * coordinate independently below / at / inside / above its range, through a
+ * typed point source and through text ("x y", "x"): accepted exactly when
+ * every coordinate is in range (the same coordinate pair swapped is decided
+ * the same way), an accepted pair reads back, a refused one changes nothing.
+ */
+static const struct { int k; const char *set, *get; float min, max; } fprops[] = {
+	{ KGraph, "pos", "pos", 0, 1 }, { KGraph, "position", "pos", 0, 1 }, { KGraph, "scale", "scale", 0, FLT_MAX }, { KText, "pos", "pos", 0, 1 }
+};
+#define NFPROP 4
+#define NFVAL 7
+static float fp_value(int p, int i)
+{
+	static const float unit[NFVAL] = { -0.5f, -1e-6f, 0, 0.5f, 1, 1.0000001f, 1.5f };
+	static const float scale[NFVAL] = { -1, -1e-30f, 0, 2, 1e30f, FLT_MAX, 0.25f };
+	return fprops[p].max > 1 ? scale[i] : unit[i];
+}
+static uint64_t fpoint_count(void) { return (uint64_t) NFPROP * NFVAL * NFVAL * 3; }
+static void case_fpoint(uint64_t idx, vf_rng *r)
+{
+	int via = (int) (idx % 3), yi = (int) (idx / 3 % NFVAL), xi = (int) (idx / 3 / NFVAL % NFVAL), p = (int) (idx / 3 / NFVAL / NFVAL);
+	int k = fprops[p].k, t, ret, expect_ok;
+	float x = fp_value(p, xi), y = fp_value(p, yi), got[2];
+	ostore o;
+	snap before, after;
+	char ctx[200], txt[80];
+	pname pn = { fprops[p].set, fprops[p].get, 0 };
+
+	if (via == 2) y = x;    /* single numeral: both coordinates */
+	expect_ok = x >= fprops[p].min && x <= fprops[p].max && y >= fprops[p].min && y <= fprops[p].max;
+	fresh_init();
+	o_init(k, &o, 0);
+	scramble(k, &o, r);
+	vf_fp_u64(0x2f); vf_fp_u64(idx);
+	vf_nontrivial();
+	snap_take(k, &o, &before);
+	t = snap_find(&before, pn.get);
+	VF_CHECK(t >= 0, "model:get:name-missing", "%s: property '%s' is not listed by get", kname[k], pn.get);
+	if (via == 0) {
+		hconv h;
+		float pt[2] = { x, y };
+		hconv_init(&h);
+		h.vclass = VFpoint; h.rawtype = mpt_fpoint_typeid(); h.rawlen = 8; memcpy(h.raw, pt, 8);
+		snprintf(ctx, sizeof(ctx), "mpt_%s_set(\"%s\", fpoint (%.9g, %.9g))", kname[k], pn.set, x, y);
+		vf_log("%s", ctx);
+		ret = o_set(k, &o, pn.set, &h._conv);
+	} else {
+		owrap w;
+		w._obj._vptr = &owrap_vptr; w.k = k; w.o = &o;
+		if (via == 1) snprintf(txt, sizeof(txt), "%.9g %.9g", x, y); else snprintf(txt, sizeof(txt), "%.9g", x);
+		snprintf(ctx, sizeof(ctx), "mpt_object_set_string(%s, \"%s\", \"%s\")", kname[k], pn.set, txt);
+		vf_log("%s", ctx);
+		vf_at("mpt_object_set_string");
+		ret = mpt_object_set_string(&w._obj, pn.set, txt, 0);
+		vf_count("mpt_object_set_string", 1);
+	}
+	vf_log("  -> %d", ret);
+	vf_count("monitor:fpoint-grid", 1);
+	if (ret < 0) {
+		/* a single numeral for a point is refused by the library (second coordinate missing): not claimed either way */
+		if (via != 2) VF_CHECK(!expect_ok, "model:set:refused-in-range-point", "%s: returned %d, both coordinates are inside [%.9g,%.9g]", ctx, ret, fprops[p].min, fprops[p].max);
+		check_unchanged(k, &o, &before, "model:set:refused-modified", ctx);
+		vf_count("fpoint:refused", 1);
+	} else {
+		snap_take(k, &o, &after);
+		memcpy(got, after.p[t].bytes, 8);
+		if (!expect_ok) vf_fail("model:set:accepted-out-of-range", "%s: returned %d although a coordinate is outside [%.9g,%.9g]; '%s' reads (%.9g, %.9g)", ctx, ret, fprops[p].min, fprops[p].max, pn.get, got[0], got[1]);
+		if (via != 2) VF_CHECK(got[0] == x && got[1] == y, "model:set:readback", "%s: '%s' reads (%.9g, %.9g)", ctx, pn.get, got[0], got[1]);
+		check_others(k, &before, &after, t, ctx);
+		snap_free(&after);
+		vf_count("fpoint:accepted", 1);
+	}
+	snap_free(&before);
+	o_fini(k, &o);
+	vf_sample("%s -> %d", ctx, ret);
+}
+
 /* ------------------------------------------------------------------- entry */
 static uint64_t n_seq(void) { return vf_thorough ? 1000000 : 50000; }
 static uint64_t n_col(void) { return vf_thorough ? 200000 : 5000; }
 
-uint64_t vf_cases(void) { return grid_count() + n_seq() + n_col(); }
+uint64_t vf_cases(void) { return grid_count() + n_seq() + n_col() + fpoint_count(); }
 void vf_case(uint64_t idx, vf_rng *r)
 {
 	if (idx < grid_count()) { case_grid(idx, r); return; }
 	idx -= grid_count();
 	if (idx < n_seq()) { case_sequence(r); return; }
-	case_color(idx - n_seq(), r);
+	idx -= n_seq();
+	if (idx < n_col()) { case_color(idx, r); return; }
+	case_fpoint(idx - n_col(), r);
 }
